@@ -13,7 +13,7 @@ TABLE = {
             'call-graph fix-point from the socket-driven slots (signal/slot, timer and continuation edges resolved) shows that every site '
             'installing an authentication/bind/sm listener or opening the session, and every function writing a credential/bind/stanza '
             'payload to the socket, is unreachable in that state; inbound stanza dispatch is unreachable in that state; the legacy-auth '
-            'digest/plain choice is evaluated for all offers x configurations. Universal over server behaviour for the code shape, which a test cannot be.',
+            'digest/plain choice is evaluated for all offers x configurations. Universal over server behaviour for the code shape, which a test cannot be. The predicate the gates consult must be the live QSslSocket state, a wrapper of it, or a cached flag that every new connection clears.',
             'Decides code shape only: trusts QSslSocket::isEncrypted(), the clang front end and the Qt signal/slot contract; application calls into the '
             'send API before connected() are outside the quantifier.', 'DESIGN.md §2 C04'),
     'C11': ('abstract evaluation of both carbon handlers for a foreign outer sender (sink reachability over the clang CFG) + def-use provenance of the presented message',
@@ -30,18 +30,18 @@ TABLE = {
     'C16': ('control dependence of every identity write + abstract evaluation of the server-side stanza handler for unauthenticated / spoofing senders + closed writer/caller sets of the routing tables',
             'Static: every assignment to the per-connection jid must be control-dependent on respond()==Succeeded or the password reply being NoError and be built from '
             'saslServer->username() and the domain; handleStanza is explored with "jid empty": bind, session reply, connected and routing are unreachable; with a foreign from: '
-            'routing unreachable; empty from: stamped from the authenticated jid on every routed path; the password-reply handler is explored per checker verdict.',
+            'routing unreachable; empty from: stamped from the authenticated jid on every routed path; the password-reply handler is explored per checker verdict. The base password checker reports a failed lookup and hands out no digest for it.',
             'Behaviour over all client scripts on real sockets and third-party server extensions is not decided; the password checker is trusted.', 'DESIGN.md §2 C16'),
     'C17': ('control-dependence region map of every message field in the one writer and the one reader (who-is-written-under-which-mode-guard) + compile-time witness of the mode predicate',
             'Static: each QXmppMessagePrivate field read in serializeExtensions / written in parseExtension is assigned the mode guard it is control-dependent on; the conversational '
             'fields named by the property may only appear under the Sensitive guard (a leak is one element outside its guard, visible as region membership for every message at once), '
-            'each field in exactly one part, writer and reader agree; operator&(SceMode,SceMode) is decided by the compiler for all 9 pairs; the encrypted send path passes the constant ScePublic.',
+            'each field in exactly one part, writer and reader agree; operator&(SceMode,SceMode) is decided by the compiler for all 9 pairs; the encrypted send path passes the constant ScePublic. The encrypted message is never handed to the wire as an object (which would serialize it with SceAll).',
             'Value-level recovery of every field after the two-pass parse and unknown application extensions are not decided; OMEMO code is not part of the configured build.', 'DESIGN.md §2 C17'),
     'C05': ('compile-time witness (1444 static_asserts over every ordered pair of the finite mechanism universe, decided by g++ with the project flags) + structural rules on the chooser over the clang AST',
             'Static: the strength order used by std::ranges::max is std::variant\'s operator< on the mechanism type; it is constexpr, so the compiler decides, for all 38x38 ordered pairs, that it agrees with '
             '"token > SCRAM by hash strength > DIGEST-MD5 > PLAIN > ANONYMOUS" (exhaustive, not sampled). The chooser must keep its stages (disabled filter first, parse, drop unknown, availability filter), '
             'return nothing iff no candidate, the preferred one only under contains(candidates, preferred), otherwise ranges::max with the default order; availability arms read exactly the credential their '
-            'mechanism consumes; no sendData is reachable when initSaslAuthentication reported an error.',
+            'mechanism consumes; no sendData is reachable when initSaslAuthentication reported an error. Mechanism names are parsed exactly (a name with a foreign suffix such as -PLUS is never taken for an implemented mechanism).',
             'Trusts libstdc++ views/max; chooseMechanism and onSasl2Authenticate are analysed on clang 14\'s error-recovered AST (degraded; the vector-from-view initialisation is assumed).', 'DESIGN.md §2 C05'),
     'C01': ('writer/reader name-agreement analysis over all ~144 codec classes (resolved QXmlStreamWriter/QDom call facts per class closure), table/enumerator and toString/fromString sibling agreement, typed-helper bounds, single-consumption and escaping (who-may-write-raw) rules',
             'Static, structural necessary conditions of round-trip identity for every codec class at once: names written from fields ⊆ names read; root written = root accepted; enum tables match enumerators and no reachable '
@@ -52,12 +52,12 @@ TABLE = {
     'C02': ('definite-initialisation analysis of scalar members at every creation site (with constructor / setter / parse must-assign summaries), int-to-enum cast guard check, intraprocedural taint from parsed text and wire integers to size/index/loop sinks, single-consumption rule; positive controls',
             'Static: for every value record of the library each scalar member without default initialiser must be initialised by every user constructor or assigned on every path after each default-initialising '
             'creation (found 8 indeterminate members, 7 demonstrated with perturbed memory); integers become enums only behind a check of that integer; sizes, indices and loop bounds derived from attributes, '
-            'text or QDataStream reads are dominated by a bound (16-bit wire lengths bound allocations by type); typed children are not re-captured (fix-point). Zero-expected rules must fire on controls/c02_controls.cpp on every run.',
+            'text or QDataStream reads are dominated by a bound (16-bit wire lengths bound allocations by type); typed children are not re-captured (fix-point). Zero-expected rules must fire on controls/c02_controls.cpp on every run. Also: every DOM sibling loop guarded by isNull() advances its node on every path back to the loop head (termination of the list parsers).',
             'Absence of crashes/UB in general, termination and memory bounds for deeply nested input, and value-level idempotence are not decided (need execution under sanitizers); QObject-derived classes are excluded from R1.', 'DESIGN.md §2 C02'),
     'C03': ('dataflow from socket reads to byte-to-text decoders in every readyRead slot + must-clear of all receive-state members in the stream-restart slots',
             'Static: a value derived from readAll()/read() may not reach a stateless decoder (QString::fromUtf8 etc.) except from a member accumulator decoded up to a computed boundary, or through a stateful decoder member; '
             'all receive-state members (discovered as the text/byte members written by the receive path) are cleared before started() in both restart slots. This is the structural necessary condition that the one '
-            'hand-picked ASCII split of the test-suite cannot probe (found and fixed: per-read stateless UTF-8 decoding).',
+            'hand-picked ASCII split of the test-suite cannot probe (found and fixed: per-read stateless UTF-8 decoding). Also: the chunk of one read is only appended (no decision, log or event of processData looks at it), and the byte comparisons of the hand-written complete-character boundary separate the five UTF-8 byte classes.',
             'That the accumulate/wrap/DOM-parse strategy yields the same event sequence for every partition (regex anchoring, keep-alives, \'>\' in attribute values) is behaviour of QRegularExpression/QDomDocument on runtime strings and is not decided.', 'DESIGN.md §2 C03'),
     'C06': ('abstract evaluation of the SCRAM and DIGEST-MD5 client step functions under hostile server inputs (sink reachability per step) + dominance of the success report by a mechanism check + def-use roles of the key labels',
             'Static, refusal half only: for "nonce does not extend ours", "empty salt", "0 iterations" no PBKDF2/HMAC/hash call and no response is reachable; a wrong server signature / rspauth cannot yield a result; every accepting '
@@ -77,7 +77,7 @@ TABLE = {
     'C09': ('typestate/path exploration of the five functions that touch the unacknowledged-stanza map, abstract evaluation per (enabled, stanza) and per received tag, call-order and who-may-write rules',
             'Static: "acknowledged" is constructed only under key <= h with report/erase paired per entry; internalSend stores (key ++counter) iff enabled && stanza and otherwise reports exactly once, for all 4 combinations; '
             'onResumed drops the prefix covered by resumed.h before resending without renumbering and enable renumbers from a saved copy after zeroing both counters; both negotiation routes (nonza handler and SASL2/bind2 inline) reach them; '
-            'the inbound counter changes by exactly 1 for message/presence/iq and 0 for <a/>, <r/> and other nonzas, has two writers, and is what <a/> and <resume/> carry.',
+            'the inbound counter changes by exactly 1 for message/presence/iq and 0 for <a/>, <r/> and other nonzas, has two writers, and is what <a/> and <resume/> carry. <resumed h/> takes effect although stream management is re-enabled only afterwards, and no consumer of a received stanza runs before the inbound counter.',
             'History-level statements (exactly the uncovered stanzas are resent for every sequence of sends, acks and losses; counter wrap) need a model of histories and are not decided.', 'DESIGN.md §2 C09'),
     'C10': ('effect analysis (write set of everything reachable from the negotiation handlers vs must-reset sets of the stream-start / disconnect / close paths, with explicit persistent / set-before-use / consumed-on-use tables) + closed writer sets and must-call on the disconnect paths',
             'Static: each of the 27 per-connection leaf fields written during negotiation (continuations included) must be reset on every path of handleStart, of the socket restart slots, of _q_socketDisconnected or of closeSession, or be set from the stream features before every use, '
@@ -92,11 +92,11 @@ TABLE = {
     'C14': ('table extraction and comparison of the encoder and decoder (attribute types, fixed lengths, padding), abstract evaluation of the integrity/fingerprint arms, flag-sensitive exploration of the keyed decode, wire-length taint rule, recomputation of the CRC table from its polynomial',
             'Static: the 25 attribute types written by encode() each have a decoder arm with the same fixed length, variable-length values are padded; a wrong HMAC (under a key) or CRC makes decode() return false; encode and decode patch the length with the same +24/+8 and use the same fingerprint mask; '
             'after MESSAGE-INTEGRITY only FINGERPRINT is processed; under a non-empty key no path returns true without having passed the HMAC comparison (found and fixed); wire lengths are bounded by type or a dominating check and the loop advances; '
-            'crctable equals the table generated from 0xEDB88320; the HMAC helper hashes long keys (found and fixed).',
+            'crctable equals the table generated from 0xEDB88320; the HMAC helper hashes long keys (found and fixed). No value buffer is sized by an attribute length that exceeds the rest of the message; MESSAGE-INTEGRITY and FINGERPRINT are compared in full (never as C strings or prefixes).',
             'That HMAC/CRC outputs equal the RFC values for all inputs, decode∘encode = id at value level and "no crash for arbitrary bytes" beyond the length rule are numerical/runtime claims: not decided.', 'DESIGN.md §2 C14'),
     'C15': ('enumeration of all connectivity-state-changing atoms of the ICE datagram handler (field writes, calls) and abstract evaluation under "decode fails" / "no session password" (sink reachability), plus the flag-sensitive keyed-decode exploration shared with C14',
             'Static, safety half: the 10 state-changing atoms of handleDatagram (learn candidate, create/nominate pair, triggered check, feed transaction, select active pair, connected(), binding response) are unreachable when the keyed decode fails and when no session password is set; '
-            'the password is chosen by message class symmetrically to the sender and is the decode key; a keyed decode cannot succeed without a verified MESSAGE-INTEGRITY; responses reach their transaction only after id and source-address match; activePair/connected only under pair->nominated.',
+            'the password is chosen by message class symmetrically to the sender and is the decode key; a keyed decode cannot succeed without a verified MESSAGE-INTEGRITY; responses reach their transaction only after id and source-address match; activePair/connected only under pair->nominated. An authenticated USE-CANDIDATE request is honoured for every state of its pair (nominated at once, nominating while a check is pending, or a nominating check is started).',
             'Liveness (two honest agents connect, under loss), candidate/pair priority values and datagram pass-through are schedule/numeric claims: not decided.', 'DESIGN.md §2 C15'),
     'C18': ('abstract evaluation of the trust-message decision code for all 8 combinations of (own account, key owner, sender key authenticated) with operand identity checks, closed call-structure (who-may-call) rules around authenticate/setTrustLevel(Authenticated), promise typestate',
             'Static: in the decision continuation the apply-sets are reachable exactly for qualified ∧ authenticated, the postponed list exactly for qualified ∧ ¬authenticated, nothing otherwise (exhaustive over the 8 combinations); the three tests compare the sender\'s bare JID with the own bare JID / key owner JID and the trust level delivered for (encryption, sender, e2ee sender key) with Authenticated; '
